@@ -702,6 +702,8 @@ class Index:
         self.statics = {s["path"]: s for s in facts["statics"]}
         self._callers = None
         self._callees = None
+        from . import roles
+        roles.canonicalise(self)
 
     def body(self, key):
         b = self.bodies.get(key)
